@@ -8,7 +8,7 @@
 //   in_oracle(s) := s ∈ the hand-written list of the corpus table (method names)
 // C01(c): accepted ⇔ in_oracle.   C03(a)/C05(b): accepted ⇔ in_table.
 
-use support::doc::{decode, E, V};
+use support::doc::{decode, Msg, E, EMPTY0};
 use support::sym::{is_lower, is_name_byte, str_eq};
 
 pub fn any_name<const L: usize>() -> [u8; L] {
@@ -42,8 +42,7 @@ pub fn in_list(s: &str, list: &[&str]) -> bool {
 
 /// Does the derived decoder of `T` know `name` as a variant?
 pub fn accepted<T: sylvia::serde::de::DeserializeOwned>(name: &str) -> bool {
-    let entry = [(name, V::Map(&[]))];
-    let r: Result<T, E> = decode(V::Map(&entry));
+    let r: Result<T, E> = decode(Msg { name, body: EMPTY0 });
     let acc = !matches!(r, Err(E::UnknownVariant));
     core::mem::forget(r);
     acc
